@@ -7,6 +7,7 @@ import TdVerif.Model.C08Resize
 import TdVerif.Model.C08Out
 import TdVerif.Model.C08View
 import TdVerif.Model.C08UpdateAt
+import TdVerif.Model.C08SetMask2
 
 namespace TdVerif.Drive
 open TdVerif Sexp TdVerif.C08
@@ -150,7 +151,7 @@ def handleC08 (cmd : String) (args : List Sexp) : Option Sexp :=
       let L := mkLazy bs n sd feats
       match (convertEllipsis ix L.batch.length).bind fun ix' => idxShape ix' L.batch with
       | none => pure (tagged "err" [])
-      | some ibs => pure (membersToSexp (lazySet L ix (mkValue ibs feats)))
+      | some ibs => pure (membersToSexp (lazySetM L ix (mkValue ibs feats)))
   -- (c08.update_at (bs ..) n sd (feats ..) (ix ..)) : the members after `lazy.update_at_(value, index)`
   | "c08.update_at", [bs, n, sd, feats, ix] => do
       let bs ← shapeOf? bs
